@@ -279,11 +279,8 @@ func (br *xmpReader) readTagValue() (buf []byte, err error) {
 			return
 		}
 		if i == 0 {
-			if buf[i] == '>' {
-				i++
-			} else if buf[i] == '/' && buf[i+1] == '>' {
-				i += 2
-			}
+			// The '>' that closes the start tag has been consumed by readTagHeader or by the
+			// attribute reader: a '>' or "/>" met here is the beginning of the value.
 			// removes white space and new lines before a child element; white space that
 			// belongs to a text value (followed by text or by the end tag) is part of the value
 			k := i
